@@ -67,6 +67,8 @@ Step ==
     [] Ev.ev = "reserr"   -> b' = DoResolverError(Clr(b)) /\ CheckObs
     [] Ev.ev = "exitidle" -> b' = DoExitIdle(Clr(b)) /\ CheckObs
     [] Ev.ev = "timer"    -> b' = DoTimer(Clr(b)) /\ CheckObs
+    \* a sub-connection the specification never created can only follow a step already marked I_Order
+    [] Ev.ev \in {"sc", "health"} /\ Ev.sc > Len(b.addr) -> b' = b /\ Drift(TRUE, "unknown_subconn", l)
     [] Ev.ev = "sc"       -> b' = DoScState(Clr(b), Ev.sc, Ev.s) /\ CheckObs
     [] Ev.ev = "health"   -> b' = DoHealth(Clr(b), Ev.sc, Ev.s) /\ CheckObs
     [] Ev.ev = "skip"     -> b' = b
